@@ -114,6 +114,12 @@ func (d *inflightDriver) start(id, src string) (admitted bool, res reqResult) {
 	if d.hostTokens {
 		req.Host = "Api-" + strings.ToUpper(src) + ".Example.COM:8443"
 	}
+	if src == "s1" { // one source is the one whose token is EMPTY (header absent, no Host): a source like any other
+		req.Header.Del("X-Token")
+		if d.hostTokens {
+			req.Host = ""
+		}
+	}
 	if req.RemoteAddr == "" || req.RemoteAddr == "192.0.2.1:1234" {
 		req.RemoteAddr = srcAddr(src)
 	}
